@@ -463,6 +463,10 @@ class Exec(Sym):
                 return self.store[lid]
             if lid in self.env.mutable or self.env.assigned.get(lid, 0):
                 return ("var", n0["to"]["name"])
+        if n0.get("k") == "Field":
+            fk = self.field_key(n0, d)
+            if fk is not None and fk in self.store:
+                return self.store[fk]
         if n0.get("k") == "Block" and (n0.get("stmts") or n0.get("unsafe")):
             return self.block(n0, d)
         if n0.get("k") == "Call" and (callee_of(n0) or "").endswith("String::new"):
@@ -498,6 +502,15 @@ class Exec(Sym):
             return ("unit",)
         return self.sym(e0, d)
 
+    def field_key(self, n, d):
+        """Key for a store to `<local>.field` (one level), else None."""
+        n = strip(n)
+        if n.get("k") == "Field":
+            b = strip(n["e"])
+            if b.get("k") == "Path" and b["to"].get("res") == "local":
+                return ("fieldstore", b["to"]["name"], n["name"])
+        return None
+
     def local_id(self, n):
         n = strip(n)
         if n.get("k") == "Path" and n["to"].get("res") == "local":
@@ -523,14 +536,22 @@ class Exec(Sym):
         if k == "Assign":
             lid = self.local_id(st0["l"])
             if lid is None:
-                raise Unsupported("assignment to non-local")
-            self.store[lid] = self.value(st0["r"], d)
+                fk = self.field_key(st0["l"], d)
+                if fk is None:
+                    raise Unsupported("assignment to non-local")
+                self.store[fk] = self.value(st0["r"], d)
+            else:
+                self.store[lid] = self.value(st0["r"], d)
         elif k == "AssignOp":
             lid = self.local_id(st0["l"])
-            if lid is None:
-                raise Unsupported("compound assignment to non-local")
             old = self.sym(st0["l"], d)
-            self.store[lid] = ("bin", st0["op"].rstrip("="), old, self.sym(st0["r"], d))
+            if lid is None:
+                fk = self.field_key(st0["l"], d)
+                if fk is None:
+                    raise Unsupported("compound assignment to non-local")
+                self.store[fk] = ("bin", st0["op"].rstrip("="), old, self.sym(st0["r"], d))
+            else:
+                self.store[lid] = ("bin", st0["op"].rstrip("="), old, self.sym(st0["r"], d))
         elif k == "MethodCall":
             lid = self.local_id(st0["recv"])
             c = callee_of(st0) or ""
@@ -651,6 +672,14 @@ def str_append(cur, part):
     raise Unsupported("push on unknown string")
 
 
+def summarize_effects(fn, facts=None):
+    """(return normal form, {field name: normal form of the value stored into <param>.<field>})."""
+    ex = Exec(fn["hir"], facts)
+    r = ex.run()
+    eff = {k[2]: v for k, v in ex.store.items() if isinstance(k, tuple) and k[0] == "fieldstore"}
+    return r, eff
+
+
 def summarize(fn, facts=None):
     """Normal form of the function's return value; raises Unsupported on loops/early returns."""
     ex = Exec(fn["hir"], facts)
@@ -760,6 +789,8 @@ def fold(t, assume, discr=None):
             a = f(t[1])
             if a[0] == "lit" and isinstance(a[1], bool):
                 return ("lit", not a[1])
+            if a[0] == "lit" and isinstance(a[1], int):
+                return ("lit", ~a[1])
             return ("not", a)
         if h == "neg":
             a = f(t[1])
